@@ -101,6 +101,16 @@ def envelopeOp : List String → String
   | [_, _, "PANIC"] => propfail "panic"
   | _ => "BADLINE"
 
+/-- `envjson <json> | res`: however an envelope comes into being, it has a recipient -/
+def envjsonOp : List String → String
+  | [_js, res] =>
+    if res == "PANIC" then propfail "panic"
+    else if res == "err" then "ok"
+    else match res.splitOn ":" with
+      | ["ok", _from, to] => if to == "-" || to == "" then propfail "envelope-without-recipients-deserialised" else "ok"
+      | _ => "BADLINE"
+  | _ => "BADLINE"
+
 def toAddr (e : Env) (s : List Char) : Option Addr :=
   match parse e s with | .ok a => some a | .error _ => none
 
